@@ -122,7 +122,11 @@ func (b *SidxBox) Type() string {
 // Size - return calculated size
 func (b *SidxBox) Size() uint64 {
 	// Add up all fields depending on version
-	return uint64(boxHeaderSize + 4 + 20 + 8*int(b.Version) + len(b.SidxRefs)*12)
+	size := boxHeaderSize + 4 + 20 + len(b.SidxRefs)*12
+	if b.Version != 0 { // 64-bit earliest_presentation_time and first_offset, as in decode and encode
+		size += 8
+	}
+	return uint64(size)
 }
 
 // Encode - write box to w
